@@ -13,6 +13,7 @@ Definition agree_prop (a : acfg) : Prop :=
     /\ res_ms rc = res_ms rs /\ res_ekm rc = res_ekm rs /\ res_keys rc = res_keys rs
     /\ res_peer rc = expected_server_certs a /\ res_peer rs = expected_client_certs a
     /\ reconnect_ok a rc = true
+    /\ expected_suite a = Some (res_suite rc)
   | (Errored, Errored) => policy_allows a = false
   | _ => False
   end.
@@ -25,9 +26,30 @@ Proof. intros a b. unfold listN_eqb. destruct (list_eq_dec N.eq_dec a b); [auto|
 Lemma agree_check_sound : forall a, agree_check a = true -> agree_prop a.
 Proof.
   intros a. unfold agree_check, agree_prop. destruct (honest_run a) as [[rc| |] [rs| |]]; try discriminate.
-  - intros H. do 8 (apply andb_prop in H; destruct H as [H ?]).
+  - intros H. do 9 (apply andb_prop in H; destruct H as [H ?]).
+    destruct (expected_suite a) as [es|]; [|discriminate].
+    match goal with E : N.eqb es _ = true |- _ => apply N.eqb_eq in E; subst es end.
     repeat split; auto using term_eqb_eq, listN_eqb_eq; apply N.eqb_eq; assumption.
   - intros H. apply negb_true_iff. exact H.
+Qed.
+
+(* what "find" finds is the first element that satisfies the test *)
+Lemma find_first : forall {A} (f : A -> bool) l x,
+  find f l = Some x <-> exists l1 l2, l = l1 ++ x :: l2 /\ f x = true /\ Forall (fun y => f y = false) l1.
+Proof.
+  intros A f l x. induction l as [|y l IH]; cbn.
+  - split; [discriminate|]. intros (l1 & l2 & H & _). destruct l1; discriminate.
+  - destruct (f y) eqn:E.
+    + split.
+      * intros [= <-]. exists [], l. repeat split; auto.
+      * intros (l1 & l2 & H & Hx & HF). destruct l1 as [|z l1]; cbn in H.
+        -- injection H as <- _. reflexivity.
+        -- injection H as <- _. inversion HF; congruence.
+    + rewrite IH. split.
+      * intros (l1 & l2 & -> & Hx & HF). exists (y :: l1), l2. repeat split; auto.
+      * intros (l1 & l2 & H & Hx & HF). destruct l1 as [|z l1]; cbn in H.
+        -- injection H as <- _. congruence.
+        -- injection H as <- ->. inversion HF; subst. exists l1, l2. auto.
 Qed.
 
 Lemma in_bools : forall b, In b bools.
